@@ -10,6 +10,7 @@ open Wire Model.C12
   tilt <rows> <cols> <xo> <xsp> <yo> <ysp> <v>*   -> c1 c2 <v>*
   power <rows> <cols> <v>*                         -> c1 c2 <v>*
   crop <rows> <cols> <v>*                          -> none | r0 r1 c0 c1
+  effs <method>                                    -> repr of the hand-written effect list
 floats travel as IEEE bit patterns; NaN = invalid sample. -/
 
 def optOf (x : Float) : Option Float := if x.isNaN then none else some x
@@ -106,6 +107,10 @@ def step (t : List String) : String :=
       | none => "none"
       | some (r0, r1, c0, c1) => s!"{r0} {r1} {c0} {c1}"
     | _, _, _ => "bad-op"
+  | ["effs", name] =>
+    match methodEffs name with
+    | some effs => ((toString (repr effs)).replace "\n" " ")
+    | none => "bad-op"
   | _ => "bad-op"
 
 def main : IO Unit := mainLoop step
